@@ -3,7 +3,8 @@
 (* C08 - abstract specification of the exclusive-access dealer and          *)
 (* single-pass validation of traces recorded from the real udeal            *)
 (* (harness/sched_udeal.c).  Events: Reset(nt, rounds), Start(t), Enter(t), *)
-(* Leave(t), Sleep(t), Wake(t), GrabFail(t), Quiescent.                     *)
+(* Leave(t), Sleep(t), Wake(t), GrabFail(t), Abort(t) (a contender that is  *)
+(* waiting gives up: udeal_abort), Quiescent.                               *)
 (*   Mutex          Enter only when nobody holds                            *)
 (*   NoLostHandOver Quiescent (nobody runnable) only when every contender   *)
 (*                  has completed all its rounds                            *)
@@ -23,12 +24,14 @@ Guard(ev) ==
     [] ev.e = "Sleep" -> TRUE
     [] ev.e = "Wake" -> ev.t \in waiting
     [] ev.e = "GrabFail" -> ev.t \in waiting
+    [] ev.e = "Abort" -> ev.t \in waiting
     [] ev.e = "Quiescent" -> holder = None /\ waiting = {} /\ \A t \in Threads : todo[t] = 0
     [] OTHER -> FALSE
 Effect(ev) ==
   CASE ev.e = "Start" -> waiting' = waiting \cup {ev.t} /\ UNCHANGED <<holder, todo>>
     [] ev.e = "Enter" -> holder' = ev.t /\ waiting' = waiting \ {ev.t} /\ UNCHANGED todo
     [] ev.e = "Leave" -> holder' = None /\ todo' = [todo EXCEPT ![ev.t] = @ - 1] /\ UNCHANGED waiting
+    [] ev.e = "Abort" -> waiting' = waiting \ {ev.t} /\ todo' = [todo EXCEPT ![ev.t] = @ - 1] /\ UNCHANGED holder
     [] OTHER -> UNCHANGED st
 
 TStep ==
